@@ -10,6 +10,28 @@ import (
 
 // ---------- sequential reply-multiset oracle (C03) over a whole drained history
 
+// c03ConnAlphabet: requests whose commands outlive the request on the server (holds, queued requests) mixed
+// with requests that replace a hold's command (update flag, re-entrant re-lock) on one connection, a second
+// connection queueing behind, and pauses long enough for notices.
+func c03ConnAlphabet() []SeqOp {
+	upd := L(0, 1, 1, 0, 1, 0, 0)
+	upd.Flag = 0x02
+	upd2 := L(0, 1, 1, 0, 8, 0, 1)
+	upd2.Flag = 0x02
+	return []SeqOp{
+		op(0, L(0, 1, 1, 0, 20, 0, 1)),
+		op(0, upd),
+		op(0, upd2),
+		op(0, L(0, 2, 2, 0, 4, 0, 0)),
+		op(1, L(0, 1, 3, 5, 4, 0, 0)),
+		op(1, L(0, 2, 4, 0, 4, 0, 0)),
+		op(0, U(0, 1, 1)),
+		op(0, U(0, 2, 2)),
+		op(0, hapi.Cmd{Type: 2, Key: 1, Id: 3, Flag: 0x02}),
+		tick(2 * sec), tick(6 * sec),
+	}
+}
+
 func SeqOracleC03(r *SeqRun) []explore.Violation {
 	if r.Drained == nil {
 		return nil
@@ -359,7 +381,11 @@ func init() {
 					op(1, withTF(L(0, 1, 2, 3500, 4, 0, 0), fMilli)), op(1, withTF(L(0, 1, 3, 5999, 4, 0, 0), fMilli)), op(1, withTF(L(0, 1, 4, 900, 4, 0, 0), fMilli)),
 					op(0, U(0, 1, 1)), op(0, hapi.Cmd{Type: 2, Key: 1, Id: 2, Flag: 0x02}), op(0, hapi.Cmd{Type: 2, Key: 1, Id: 3, Flag: 0x02}),
 					tick(200 * ms), tick(1 * sec), tick(3 * sec)}},
-			}, Oracles: []SeqOracle{SeqOracleC03}}
+				// the same kind of histories over REAL binary connections of a full node (pure tree: the state of
+				// a connection's command pool is not part of the canonical state), compared reply by reply and
+				// state by state with the in-memory execution
+				{Name: "binary-connection-histories", Cfg: cfg, Depth: d - 1, Drain: true, Full: true, NoDedupe: true, MaxStates: 400000, Alphabet: c03ConnAlphabet()},
+			}, Oracles: []SeqOracle{SeqOracleC03, OracleFullVsMem("C03")}}
 		},
 		enum: func(q bool) []*EnumPlan {
 			return []*EnumPlan{{Name: "text-connection-replies", Cases: c03TextCases, Eval: evalC03Text}}
